@@ -75,6 +75,11 @@ def gen(rng, tier):
              {"tree": small, "seed": 3, "slashes": 0, "spelling": "linkup_decoy"},
              {"tree": small, "seed": 4, "slashes": 1, "spelling": "linkup_none"},
              {"tree": small, "seed": 5, "slashes": 0, "spelling": "rootlink_dot"},
+             # names are bytes: a decomposed name, its composed (NFC) twin, a singleton (ANGSTROM SIGN) next to its NFC form
+             {"tree": {"t": "D", "c": [[b"e\xcc\x81".hex(), {"t": "R", "d": b"decomposed".hex(), "m": 0o644}],
+                                      [b"\xc3\xa9".hex(), {"t": "D", "c": [[b"\xe2\x84\xab".hex(), {"t": "R", "d": "41", "m": 0o755}],
+                                                                             [b"\xc3\x85".hex(), {"t": "L", "x": b"A\xcc\x8a".hex()}]]}]]},
+              "seed": 9, "slashes": 0, "spelling": "real"},
              {"tree": small, "seed": 6, "slashes": 0, "spelling": "firstlink"}]
     for k in range(n):
         opts = {}
